@@ -209,7 +209,7 @@ def main(argv=None):
                     done += 1
                     with lock:
                         if "harness_error" in res:
-                            harness_errors.append(res["harness_error"] + "\n" + res.get("trace", ""))
+                            harness_errors.append(res["harness_error"] + f" [seed={res.get('req', {}).get('seed')}]\n" + res.get("trace", ""))
                         else:
                             res["hashseed"] = hs
                             results.append(res)
